@@ -504,6 +504,28 @@ pub fn replay(ctx: &Ctx, j: &J, rep: &mut Report) {
     case(ctx, shard, index, rep);
 }
 
+/// `hv corpus <dir> <seed>`: seed corpus for the coverage-guided stage, from the hostile generator.
+pub fn write_corpus(dir: &str, seed: u64) -> i32 {
+    let mut n = 0;
+    for i in 0..1500u64 {
+        let mut rng = Rng::new(seed ^ 0xC01, (9999u64 << 40) | i);
+        let c = gen_case(&mut rng);
+        for k in &c.calls {
+            if k.bytes.len() > 4000 {
+                continue;
+            }
+            let mut d = vec![(c.sorenson as u8) | ((c.scal as u8) << 1)];
+            d.extend_from_slice(&k.bytes);
+            if std::fs::write(format!("{}/seed-{:05}", dir, n), d).is_err() {
+                return 1;
+            }
+            n += 1;
+        }
+    }
+    println!("wrote {} corpus files", n);
+    0
+}
+
 // ------------------------------------------------------------------------------------------
 // worker process + driver
 // ------------------------------------------------------------------------------------------
